@@ -859,6 +859,10 @@ func driveKeys(c *ctx) {
 		k, err := secec.NewPrivateKey(append([]byte{}, b...))
 		if err != nil {
 			c.E("key.Private", "in", hx(b), "ok", false, "bytes", "", "scalar", "", "pub", "", "pubcmp", "", "pubpoint", "")
+			if k2, err2 := secec.NewPrivateKey(append([]byte{}, b...)); err2 == nil { // offered again at once
+				c.E("key.Private", "in", hx(b), "ok", true, "bytes", hx(k2.Bytes()), "scalar", scHex(k2.Scalar()),
+					"pub", hx(k2.PublicKey().Bytes()), "pubcmp", hx(k2.PublicKey().CompressedBytes()), "pubpoint", hx(k2.PublicKey().Point().UncompressedBytes()))
+			}
 			continue
 		}
 		c.E("key.Private", "in", hx(b), "ok", true, "bytes", hx(k.Bytes()), "scalar", scHex(k.Scalar()),
@@ -879,6 +883,11 @@ func driveKeys(c *ctx) {
 		k, err := secec.NewPublicKey(append([]byte{}, b...))
 		if err != nil {
 			c.E("key.Public", "in", hx(b), "ok", false, "unc", "", "cmp", "", "asn1", "", "point", "", "twist", twist)
+			// a rejected input is offered again at once: what an error path leaves behind must not change the answer
+			if k2, err2 := secec.NewPublicKey(append([]byte{}, b...)); err2 == nil {
+				c.E("key.Public", "in", hx(b), "ok", true, "unc", hx(k2.Bytes()), "cmp", hx(k2.CompressedBytes()), "asn1", hx(k2.ASN1Bytes()),
+					"point", hx(k2.Point().UncompressedBytes()), "twist", twist, "second_try", true)
+			}
 			return
 		}
 		c.E("key.Public", "in", hx(b), "ok", true, "unc", hx(k.Bytes()), "cmp", hx(k.CompressedBytes()), "asn1", hx(k.ASN1Bytes()),
